@@ -54,10 +54,29 @@ def check_accumulator(out, facts):
     else:
         s = seq[2]
         val = strip(s[2])
-        okv = (is_self_field(s[1], 'used_mem') and s[3] is None and isinstance(val, tuple) and val[0] == 'call' and
-               val[1] == 'saturating_add' and is_self_field(val[3][0], 'used_mem') and strip(val[3][1])[:2] == ('param', 'size'))
+        # the new value is min(used_mem + size, usize::MAX), however it is computed (saturating_add, checked_add with a
+        # saturating fallback, ...): decided by evaluation at small values and at the top of the range
+        okv = is_self_field(s[1], 'used_mem') and s[3] in (None, 'AddAssign')
+        if okv and s[3] is None:
+            M64 = 2 ** 64 - 1
+            for old_, size_ in ((0, 0), (0, 5), (7, 0), (3, 4), (M64 - 1, 1), (M64 - 1, 2), (M64, 0), (M64, M64), (1, M64)):
+                def leafv(x, old_=old_, size_=size_):
+                    if is_self_field(x, 'used_mem'):
+                        return old_
+                    if strip(x)[:2] == ('param', 'size'):
+                        return size_
+                    return None
+                try:
+                    got = eval_expr(val, leafv)
+                except ArithPanic:
+                    got = None
+                if got != min(old_ + size_, M64):
+                    okv = False
+                    break
+        elif okv:
+            okv = False     # a plain `+=` would overflow
         if not okv:
-            why.append('accumulation is not used_mem = used_mem.saturating_add(size): ' + sym.tstr(s))
+            why.append('accumulation is not used_mem = min(used_mem + size, usize::MAX) (saturating): ' + sym.tstr(s))
         alts = [x for x in sym.walk(t) if x[0] == 'alt']
         if len(alts) != 1:
             why.append('expected exactly one limit comparison')
